@@ -93,7 +93,7 @@ func init() {
 			if r.Chance(1, 10) {
 				n = 1 + r.Intn(40)
 			}
-			ds := genScript(r, &rt.Small, n)
+			ds := genScript(r, &c05Small, n)
 			return scriptIn{Defs: ds, Flip: r.U64() % 1000000, Oracle: rt.Oracle(ds)}
 		},
 		Run: func(raw json.RawMessage) (interface{}, error) {
